@@ -17,7 +17,9 @@ RULE = ('round trip: molecule spec x format spec drawn from subsets of {a, A, m,
         '<= 5 atoms (6 thorough) over C/N/O, charges, bond orders 1-3: canonical string -> brute-force isomorphism class '
         'must be a function; (2) all 2^k label assignments (k <= 5) of sampled molecules: string -> stereo signature under '
         'also: str() read after smiles_atoms_order must equal str() of a fresh object. the constitution automorphism group must be a function. non-trivial = text has ring closure, branch, bracket atom '
-        'or stereo mark; distinct by written text / canonical key')
+        'or stereo mark; distinct by written text / canonical key'
+        '; also: ladder stratum: >= 10 ring bonds open at once (two-digit closure numbers after bare atoms).'
+        '; also: the curated witness list is swept completely on every run.')
 ASSUMPTIONS = ['atom-wise comparison uses the known written order, no canonicaliser',
                'stereo signs are read through _translate_*_sign on both sides (parity-consistency checked in C12)',
                'automorphism group of the constitution computed by brute force (vf/oracles/iso.py), molecules <= 20 atoms',
@@ -42,6 +44,7 @@ def shards(tier, seed):
     parts = 6 if tier == 'quick' else 32
     out += [dict(kind='small', part=i, parts=parts, nmax=nmax) for i in range(parts)]
     out += [dict(kind='ladder', part=i, n=12 if tier == 'quick' else 150) for i in range(4)]
+    out += [dict(kind='curated', part=i) for i in range(2)]
     return out
 
 
@@ -63,6 +66,12 @@ def run_shard(shard, tier, seed):
         strat = st.fixed_dictionaries({'stereo_of': molgen.mol_specs(max_atoms=12, corpus_w=3, curated_w=3, graph_w=3,
                                                                      literal_w=1, sym_w=6)})
         return hyp_run(ID, strat, check_case, max_examples=shard['n'], seed=seed * 1000 + 100 + shard['shard'])
+    if shard['kind'] == 'curated':
+        # the curated witnesses are swept completely on every run (drawn cases meet a given witness only now and then)
+        fm = ['', 'a', 'A', 'h', 'm', 'r', 'ar', 'Ahr', 'hm']
+        cur = molgen.curated()
+        return direct_run(ID, [{'mol': {'k': 'smi', 's': s}, 'fmt': [fm[i % 9], fm[(i + 4) % 9], 'r'], 'seed': seed * 7919 + i}
+                               for i, s in enumerate(cur) if i % 2 == shard['part']], check_case)
     if shard['kind'] == 'ladder':
         cases = []
         for i in range(shard['n']):
